@@ -22,6 +22,85 @@ func ruleIDX1(p *Prog) *RuleResult {
 			res.undecided("anchors:"+lvl, "-", err.Error())
 			continue
 		}
+		// summaries: an int parameter of a table-level helper that the helper uses (itself, or as the start of a
+		// loop variable) as a position in exactly one of its table parameters — mergeBulk(other, dst, left, right):
+		// left walks the receiver, right walks other
+		paramTab := map[*ssa.Function]map[int]int{}
+		for _, f := range e.fns {
+			if f.Blocks == nil {
+				continue
+			}
+			t := e.funcState(f)
+			seenTab := map[int]map[int]bool{}
+			for _, b := range f.Blocks {
+				for _, ins := range b.Instrs {
+					call, ok := ins.(*ssa.Call)
+					if !ok {
+						continue
+					}
+					g := call.Call.StaticCallee()
+					if g == nil || len(call.Call.Args) < 2 || !e.lv.isTableRef(call.Call.Args[0].Type()) {
+						continue
+					}
+					pos, tabArg := 1, 0
+					switch {
+					case strings.Contains(g.Name(), "AtIndex"), g.Name() == "needsCopyOnWrite":
+					case g.Name() == "advanceUntil" && len(call.Call.Args) >= 3:
+						pos = 2
+					case (strings.HasPrefix(g.Name(), "appendCopy") || strings.HasPrefix(g.Name(), "appendWithoutCopy")) && len(call.Call.Args) >= 3:
+						pos, tabArg = 2, 1
+					default:
+						continue
+					}
+					root := t.root(call.Call.Args[tabArg])
+					ti := -1
+					for k, prm := range f.Params {
+						if e.lv.isTableRef(prm.Type()) && t.root(prm) == root {
+							ti = k
+						}
+					}
+					if ti < 0 {
+						continue
+					}
+					idx := call.Call.Args[pos]
+					for {
+						if bo, ok := idx.(*ssa.BinOp); ok {
+							if _, isC := constIntVal(bo.Y); isC {
+								idx = bo.X
+								continue
+							}
+						}
+						break
+					}
+					var prms []ssa.Value
+					if ph, ok := idx.(*ssa.Phi); ok {
+						prms = append(prms, ph.Edges...)
+					} else {
+						prms = append(prms, idx)
+					}
+					for _, v := range prms {
+						for qi, prm := range f.Params {
+							if ssa.Value(prm) == v {
+								if seenTab[qi] == nil {
+									seenTab[qi] = map[int]bool{}
+								}
+								seenTab[qi][ti] = true
+							}
+						}
+					}
+				}
+			}
+			for qi, tabs := range seenTab {
+				if len(tabs) == 1 {
+					for ti := range tabs {
+						if paramTab[f] == nil {
+							paramTab[f] = map[int]int{}
+						}
+						paramTab[f][qi] = ti
+					}
+				}
+			}
+		}
 		for _, f := range e.fns {
 			if f.Blocks == nil {
 				continue
@@ -29,6 +108,44 @@ func ruleIDX1(p *Prog) *RuleResult {
 			t := e.funcState(f)
 			// cursor -> table roots it indexes, via table accessor calls (table, index, ...)
 			use := map[ssa.Value]map[string]ssa.Instruction{}
+			// positions handed to a helper that walks one of its table parameters with them
+			for _, b := range f.Blocks {
+				for _, ins := range b.Instrs {
+					call, ok := ins.(*ssa.Call)
+					if !ok {
+						continue
+					}
+					g := call.Call.StaticCallee()
+					if g == nil || paramTab[g] == nil {
+						continue
+					}
+					for qi, ti := range paramTab[g] {
+						if qi >= len(call.Call.Args) || ti >= len(call.Call.Args) {
+							continue
+						}
+						root := t.root(call.Call.Args[ti])
+						idx := call.Call.Args[qi]
+						for {
+							if bo, ok := idx.(*ssa.BinOp); ok {
+								if _, isC := constIntVal(bo.Y); isC {
+									idx = bo.X
+									continue
+								}
+							}
+							break
+						}
+						if _, isPhi := idx.(*ssa.Phi); !isPhi {
+							continue
+						}
+						if use[idx] == nil {
+							use[idx] = map[string]ssa.Instruction{}
+						}
+						if _, seen := use[idx][root]; !seen {
+							use[idx][root] = call
+						}
+					}
+				}
+			}
 			for _, b := range f.Blocks {
 				for _, ins := range b.Instrs {
 					call, ok := ins.(*ssa.Call)
